@@ -147,7 +147,7 @@ def r2(ctx, R):
                 R.bad(cv, cw[0], "clear_value_at(clear_input=%s) on %s: cleared=%s, required %s"
                       % (k[0], "an input" if k[1] else "a calculated value", table[k], v),
                       stmt="guard %s,%s" % k)
-        a = cw[0].args[0] if cw[0].args else None
+        a = q.origin(cv, cw[0].args[0]) if cw[0].args else None
         R.inst("clear_value_at clears exactly the element's own node")
         if not (isinstance(a, ast.Call) and call_name(a) == "key_to_node" and [norm(x) for x in a.args] == ["self", "key"]):
             R.bad(cv, cw[0], "clear_value_at does not clear (self, key)")
